@@ -16,6 +16,8 @@ import (
 	"encoding/json"
 	"fmt"
 	"os"
+	"runtime"
+	"strconv"
 	"strings"
 	"sync"
 	"testing"
@@ -81,23 +83,39 @@ func fileHas(path, mk string) bool {
 }
 
 type bbCase struct {
-	Kinds  []int `json:"kinds"`  // write kinds of the pipelined segment
+	Kinds  []int `json:"kinds"`  // write kinds of the pipelined segment (-1: GET of a large value, reply 20-70 KB)
 	Detach int   `json:"detach"` // -1: none, else index into detachCmds appended to the segment
 	Split  bool  `json:"split"`  // send each command as its own segment
+	Sleep  bool  `json:"sleep"`  // the segment ends with SLEEP 0.05 (holds the shared lock: keeps the batch open)
 }
+
+var bigOnce sync.Once
 
 func runBlackBox(t ev.Failer, c *ev.Collector, srv *t38.Srv, bc bbCase) {
 	conn := srv.MustDial()
 	defer conn.Close()
-	var mks []string
+	bigOnce.Do(func() {
+		conn.MustDo("SET", "big", "blob", "STRING", strings.Repeat("B", 70000))
+		conn.MustDo("SET", "big", "blob2", "STRING", strings.Repeat("C", 20000))
+	})
+	var mks []string // marker per command ("" for reads)
 	var seg []byte
 	var cmds [][]string
-	for _, k := range bc.Kinds {
-		mk := marker()
+	for i, k := range bc.Kinds {
+		var cmd []string
+		mk := ""
+		if k < 0 {
+			cmd = []string{"GET", "big", []string{"blob", "blob2"}[i%2]}
+		} else {
+			mk = marker()
+			cmd = writeCmd(k, mk)
+		}
 		mks = append(mks, mk)
-		cmd := writeCmd(k, mk)
 		cmds = append(cmds, cmd)
 		seg = append(seg, t38.EncodeCmd(cmd...)...)
+	}
+	if bc.Sleep {
+		seg = append(seg, t38.EncodeCmd("SLEEP", "0.05")...)
 	}
 	if bc.Detach >= 0 {
 		seg = append(seg, t38.EncodeCmd(detachCmds[bc.Detach]...)...)
@@ -106,9 +124,9 @@ func runBlackBox(t ev.Failer, c *ev.Collector, srv *t38.Srv, bc bbCase) {
 		for i, cmd := range cmds {
 			v, err := conn.Do(cmd...)
 			if err != nil || v.IsErr() {
-				c.Fail(t, "c08-harness", fmt.Sprintf("write %v failed: %v %v", cmd, v, err), bc)
+				c.Fail(t, "c08-harness", fmt.Sprintf("command %v failed: %v %v", cmd, v, err), bc)
 			}
-			if !fileHas(srv.AOFPath(), mks[i]) {
+			if mks[i] != "" && !fileHas(srv.AOFPath(), mks[i]) {
 				c.Fail(t, "ack-before-flush", fmt.Sprintf("acknowledged %s is not in appendonly.aof at the time the reply was read", t38.CmdString(cmd)), bc)
 			}
 		}
@@ -120,17 +138,15 @@ func runBlackBox(t ev.Failer, c *ev.Collector, srv *t38.Srv, bc bbCase) {
 	for i := range cmds {
 		v, err := conn.Recv()
 		if err != nil || v.IsErr() {
-			c.Fail(t, "c08-harness", fmt.Sprintf("write %v failed: %v %v", cmds[i], v, err), bc)
+			c.Fail(t, "c08-harness", fmt.Sprintf("command %v failed: %v %v", cmds[i], v, err), bc)
 		}
-	}
-	// all acknowledgements of the segment have arrived: every one must be on disk
-	for i, mk := range mks {
-		if !fileHas(srv.AOFPath(), mk) {
+		// the acknowledgement of command i has arrived: it must be on disk NOW
+		if mks[i] != "" && !fileHas(srv.AOFPath(), mks[i]) {
 			what := "pipelined segment"
 			if bc.Detach >= 0 {
 				what = "segment ending in " + detachCmds[bc.Detach][0] + " (connection detaches)"
 			}
-			c.Fail(t, "ack-before-flush", fmt.Sprintf("%s: acknowledged %s is not in appendonly.aof after its reply was read", what, t38.CmdString(cmds[i])), bc)
+			c.Fail(t, "ack-before-flush", fmt.Sprintf("%s: acknowledged %s is not in appendonly.aof at the moment its reply was read", what, t38.CmdString(cmds[i])), bc)
 		}
 	}
 }
@@ -138,31 +154,53 @@ func runBlackBox(t ev.Failer, c *ev.Collector, srv *t38.Srv, bc bbCase) {
 func TestC08_BlackBox(t *testing.T) {
 	c := ev.New("C08", "blackbox", "exploration")
 	t.Cleanup(c.Flush)
-	c.Rule("one connection sends a segment of 1-4 pipelined state-changing commands of 8 kinds (SET variants, JSET, SETCHAN, SETHOOK, EVAL/EVALNA scripts that write), optionally followed in the same segment by a command that detaches the connection (SUBSCRIBE, PSUBSCRIBE, live NEARBY/WITHIN FENCE, MONITOR, AOF); right after reading the acknowledgements the file on disk must contain each command's unique marker. Non-trivial: segment with >= 2 writes or with a detaching command; distinct by (kinds, detach, split).")
-	srv, err := t38.Start(t38.Opts{})
+	c.Rule("one connection sends a segment of 1-12 pipelined commands: state-changing commands of 8 kinds (SET variants, JSET, SETCHAN, SETHOOK, EVAL/EVALNA scripts that write) mixed with GETs whose replies are 20-70 KB (so the connection's output buffer grows past any internal threshold), optionally ending with SLEEP 0.05 (holds the shared lock, keeps the batch open and the background flusher out) and/or a command that detaches the connection (SUBSCRIBE, PSUBSCRIBE, live NEARBY/WITHIN FENCE, MONITOR, AOF); the moment each acknowledgement has been read the file on disk must contain that command's unique marker. Non-trivial: segment with >= 2 writes, a large read, or a detaching command; distinct by (kinds, detach, split, sleep).")
+	srv, err := t38.Start(t38.Opts{DevMode: true})
 	if err != nil {
 		t.Fatal(err)
 	}
 	defer srv.StopAsync()
-	ev.Rapid("blackbox", ev.Pick(1500, 20000))
+	ev.Rapid("blackbox", ev.Pick(1000, 20000))
 	rapid.Check(t, func(rt *rapid.T) {
 		bc := bbCase{
-			Kinds:  rapid.SliceOfN(rapid.IntRange(0, 7), 1, 4).Draw(rt, "kinds"),
-			Detach: rapid.IntRange(-2, len(detachCmds)-1).Draw(rt, "detach"),
-			Split:  rapid.IntRange(0, 4).Draw(rt, "split") == 0,
+			Kinds:  rapid.SliceOfN(rapid.IntRange(-2, 7), 1, 12).Draw(rt, "kinds"),
+			Detach: rapid.IntRange(-4, len(detachCmds)-1).Draw(rt, "detach"),
+			Split:  rapid.IntRange(0, 5).Draw(rt, "split") == 0,
+			Sleep:  rapid.IntRange(0, 3).Draw(rt, "sleep") == 0,
+		}
+		for i, k := range bc.Kinds {
+			if k < -1 {
+				bc.Kinds[i] = -1
+			}
 		}
 		if bc.Detach < -1 {
 			bc.Detach = -1
 		}
 		if bc.Split {
 			bc.Detach = -1
+			bc.Sleep = false
 		}
 		c.Case()
 		runBlackBox(rt, c, srv, bc)
 		if bc.Detach >= 0 {
 			c.Label("detach:" + detachCmds[bc.Detach][0])
 		}
-		if len(bc.Kinds) >= 2 || bc.Detach >= 0 {
+		big := false
+		writes := 0
+		for _, k := range bc.Kinds {
+			if k < 0 {
+				big = true
+			} else {
+				writes++
+			}
+		}
+		if big {
+			c.Label("large-reply-in-segment")
+		}
+		if bc.Sleep {
+			c.Label("segment-held-open-by-sleep")
+		}
+		if writes >= 2 || big || bc.Detach >= 0 {
 			c.NonTrivial(fmt.Sprint(bc))
 			c.Sample(bc)
 		}
@@ -173,20 +211,45 @@ func TestC08_BlackBox(t *testing.T) {
 
 type arrival struct {
 	name    string
+	goid    int64
 	release chan struct{}
+}
+
+type event struct {
+	arr   *arrival // hook arrival, or
+	reply int      // index+1 of the connection a reply (or EOF: closed=true) came from
+	eof   bool
 }
 
 // sched owns the schedule of one server's connection goroutines.
 type sched struct {
-	srv      *t38.Srv
-	arrivals chan *arrival
-	off      bool
-	mu       sync.Mutex
+	srv    *t38.Srv
+	events chan event
+	off    bool
+	mu     sync.Mutex
+}
+
+func goid() int64 {
+	var buf [64]byte
+	n := runtime.Stack(buf[:], false)
+	// "goroutine 123 [running]:"
+	f := strings.Fields(string(buf[:n]))
+	if len(f) < 2 {
+		return -1
+	}
+	id, _ := strconv.ParseInt(f[1], 10, 64)
+	return id
+}
+
+func inPrewrite() bool {
+	buf := make([]byte, 4096)
+	n := runtime.Stack(buf, false)
+	return strings.Contains(string(buf[:n]), "prewriteAOF")
 }
 
 func newSched(t ev.Failer) *sched {
 	dir := t38.NewDir("c08")
-	s := &sched{arrivals: make(chan *arrival, 64), off: true} // pass-through until set-up is done
+	s := &sched{events: make(chan event, 256), off: true} // pass-through until set-up is done
 	verifhook.Register(dir, &verifhook.Handler{Point: func(name string, client int) {
 		s.mu.Lock()
 		off := s.off
@@ -194,8 +257,11 @@ func newSched(t ev.Failer) *sched {
 		if off {
 			return
 		}
-		a := &arrival{name: name, release: make(chan struct{})}
-		s.arrivals <- a
+		if name == "aof-write" && !inPrewrite() {
+			return // background flusher, shrink, shutdown: not a connection's pre-write step
+		}
+		a := &arrival{name: name, goid: goid(), release: make(chan struct{})}
+		s.events <- event{arr: a}
 		<-a.release
 	}})
 	srv, err := t38.Start(t38.Opts{Dir: dir})
@@ -206,24 +272,6 @@ func newSched(t ev.Failer) *sched {
 	return s
 }
 
-func (s *sched) close() {
-	s.mu.Lock()
-	s.off = true
-	s.mu.Unlock()
-	// release anything still parked
-	for {
-		select {
-		case a := <-s.arrivals:
-			close(a.release)
-			continue
-		default:
-		}
-		break
-	}
-	verifhook.Unregister(s.srv.Dir)
-	s.srv.StopAsync()
-}
-
 // setPassthrough lets set-up commands run without parking.
 func (s *sched) setPassthrough(on bool) {
 	s.mu.Lock()
@@ -231,17 +279,30 @@ func (s *sched) setPassthrough(on bool) {
 	s.mu.Unlock()
 }
 
+var theSched *sched
+
+// sharedSched returns the one scheduler/server of this process (every server
+// start leaks descriptors inside tile38, so schedules share a server; markers
+// are unique and connections are per schedule).
+func sharedSched(t ev.Failer) *sched {
+	if theSched == nil {
+		theSched = newSched(t)
+	}
+	return theSched
+}
+
 // connState is one scripted connection.
 type connState struct {
+	idx      int
 	conn     *t38.Conn
+	goid     int64
 	segs     [][][]string // segments, each a list of commands
 	next     int          // next segment to send
-	parked   *arrival     // where its goroutine is parked (nil: idle or not started)
+	parked   *arrival     // where its goroutine is parked (nil: running, blocked or idle)
+	blocked  bool         // an action was taken but the goroutine waits for the server lock
 	inflight []string     // markers of the segment being processed
-	replies  chan t38.Value
-	pending  int // replies still expected for the in-flight segment
-	rerr     error
-	detached bool
+	pending  int          // replies still expected for the in-flight segment
+	closed   bool
 }
 
 // Schedule-space description of a case.
@@ -257,31 +318,48 @@ var errBudget = fmt.Errorf("scheduler wait budget exceeded")
 
 // runSchedule executes one schedule. It returns the trace, the number of
 // enabled actions at each choice point (for exhaustive enumeration), and
-// labels.
+// whether the schedule is "interesting".
 func runSchedule(t ev.Failer, c *ev.Collector, sc schedCase) (trace []string, fanout []int, interesting bool, err error) {
 	s := sharedSched(t)
 	s.setPassthrough(true)
 	setup := s.srv.MustDial()
 	setup.MustDo("SET", "k", "seed", "POINT", "1", "2")
 	setup.Close()
-	s.setPassthrough(false)
+	// drain anything stale
+	for {
+		select {
+		case e := <-s.events:
+			if e.arr != nil {
+				close(e.arr.release)
+			}
+			continue
+		default:
+		}
+		break
+	}
+	var conns []*connState
+	stopReaders := make(chan struct{})
 	defer func() {
 		// never leave a goroutine parked behind (a failed case ends early)
 		s.setPassthrough(true)
+		close(stopReaders)
+		for _, cs := range conns {
+			cs.conn.Close()
+		}
 		for {
 			select {
-			case a := <-s.arrivals:
-				close(a.release)
+			case e := <-s.events:
+				if e.arr != nil {
+					close(e.arr.release)
+				}
 				continue
-			case <-time.After(20 * time.Millisecond):
+			case <-time.After(30 * time.Millisecond):
 			}
 			break
 		}
 	}()
-
-	var conns []*connState
 	for ci, segs := range sc.Conns {
-		cs := &connState{conn: s.srv.MustDial(), replies: make(chan t38.Value, 64)}
+		cs := &connState{idx: ci, conn: s.srv.MustDial()}
 		for si, seg := range segs {
 			var cmds [][]string
 			for _, k := range seg {
@@ -299,82 +377,171 @@ func runSchedule(t ev.Failer, c *ev.Collector, sc schedCase) (trace []string, fa
 		conns = append(conns, cs)
 		go func(cs *connState) {
 			for {
-				v, err := cs.conn.RecvTimeout(5 * time.Minute)
+				_, err := cs.conn.RecvTimeout(5 * time.Minute)
+				select {
+				case <-stopReaders:
+					return
+				default:
+				}
 				if err != nil {
-					cs.rerr = err
-					close(cs.replies)
+					s.events <- event{reply: cs.idx + 1, eof: true}
 					return
 				}
-				cs.replies <- v
+				s.events <- event{reply: cs.idx + 1}
 			}
 		}(cs)
 	}
-	defer func() {
+	s.setPassthrough(false)
+	byGoid := map[int64]*connState{}
+	lockHolder := func() *connState {
 		for _, cs := range conns {
-			cs.conn.Close()
-		}
-	}()
-
-	var running *connState // the connection whose goroutine is currently running
-	// waitSettle waits until the running goroutine parks again or finishes its segment.
-	waitSettle := func() error {
-		cs := running
-		deadline := time.After(waitBudget)
-		for {
-			if cs.pending == 0 && cs.parked == nil {
-				running = nil
-				return nil
+			if cs.parked != nil && cs.parked.name == "aof-write" {
+				return cs
 			}
+		}
+		return nil
+	}
+	var learning *connState
+	// handle processes one event.
+	handle := func(e event) {
+		if e.arr != nil {
+			cs := byGoid[e.arr.goid]
+			if cs == nil {
+				cs = learning
+				if cs == nil {
+					// unknown goroutine (not one of ours): let it go
+					close(e.arr.release)
+					return
+				}
+				cs.goid = e.arr.goid
+				byGoid[cs.goid] = cs
+			}
+			cs.parked = e.arr
+			cs.blocked = false
+			trace = append(trace, fmt.Sprintf("c%d@%s", cs.idx, e.arr.name))
+			if e.arr.name == "before-conn-write" {
+				// the replies of this connection's in-flight segment are about to be sent
+				for _, mk := range cs.inflight {
+					if !fileHas(s.srv.AOFPath(), mk) {
+						c.Fail(t, "ack-before-flush", fmt.Sprintf("schedule %v: connection %d is about to send the reply of a write (marker %s) whose bytes are not in appendonly.aof", trace, cs.idx, mk), sc)
+					}
+				}
+				if lockHolder() != nil && lockHolder() != cs {
+					interesting = true
+				}
+			}
+			return
+		}
+		cs := conns[e.reply-1]
+		if e.eof {
+			cs.closed = true
+			cs.pending = 0
+		} else if cs.pending > 0 {
+			cs.pending--
+		}
+		if cs.pending == 0 && cs.parked == nil {
+			cs.blocked = false
+		}
+	}
+	settled := func(cs *connState) bool {
+		return cs.parked != nil || (cs.pending == 0 && !cs.blocked) || cs.closed
+	}
+	// waitFor waits until cs has settled; while another connection holds the
+	// server lock parked, a goroutine that needs the lock cannot settle: it is
+	// marked blocked after a grace period.
+	waitFor := func(cs *connState, grace time.Duration) error {
+		deadline := time.After(waitBudget)
+		var graceC <-chan time.Time
+		if grace > 0 {
+			graceC = time.After(grace)
+		}
+		for !settled(cs) {
 			select {
-			case a := <-s.arrivals:
-				cs.parked = a
-				trace = append(trace, fmt.Sprintf("c%d@%s", indexOf(conns, cs), a.name))
-				if a.name == "before-conn-write" {
-					// the replies of this connection's in-flight segment are about to be sent
-					for _, mk := range cs.inflight {
-						if !fileHas(s.srv.AOFPath(), mk) {
-							// let everything go before failing so the server can shut down
-							c.Fail(t, "ack-before-flush", fmt.Sprintf("schedule %v: connection %d is about to send the reply of a write (marker %s) whose bytes are not in appendonly.aof", trace, indexOf(conns, cs), mk), sc)
-						}
-					}
+			case e := <-s.events:
+				handle(e)
+			case <-graceC:
+				if lockHolder() != nil {
+					cs.blocked = true
+					trace = append(trace, fmt.Sprintf("c%d blocked on the lock", cs.idx))
+					return nil
 				}
-				running = nil
-				return nil
-			case v, ok := <-cs.replies:
-				if !ok {
-					if cs.pending > 0 && !cs.detached {
-						return fmt.Errorf("connection %d closed with %d replies outstanding: %v", indexOf(conns, cs), cs.pending, cs.rerr)
-					}
-					cs.pending = 0
-					continue
-				}
-				_ = v
-				if cs.pending > 0 {
-					cs.pending--
-				}
+				graceC = nil
 			case <-deadline:
 				return errBudget
 			}
 		}
+		return nil
 	}
+	// learn which server goroutine serves which connection (one PING each)
+	for _, cs := range conns {
+		learning = cs
+		cs.pending = 1
+		if err := cs.conn.Send("PING"); err != nil {
+			return trace, fanout, interesting, err
+		}
+		for cs.pending > 0 {
+			if cs.parked != nil {
+				p := cs.parked
+				cs.parked = nil
+				close(p.release)
+			}
+			select {
+			case e := <-s.events:
+				handle(e)
+			case <-time.After(waitBudget):
+				return trace, fanout, interesting, errBudget
+			}
+		}
+		if cs.goid == 0 {
+			return trace, fanout, interesting, fmt.Errorf("could not identify the goroutine of connection %d", cs.idx)
+		}
+	}
+	learning = nil
+	trace = trace[:0]
 
 	choice := 0
-	for step := 0; step < 200; step++ {
-		// enabled actions: send next segment of an idle connection, or release a parked one
+	for step := 0; step < 300; step++ {
+		// absorb whatever happened meanwhile
+		for {
+			select {
+			case e := <-s.events:
+				handle(e)
+				continue
+			default:
+			}
+			break
+		}
 		type action struct {
 			cs   *connState
 			send bool
 		}
 		var acts []action
+		anyBusy := false
 		for _, cs := range conns {
-			if cs.parked != nil {
+			switch {
+			case cs.closed:
+			case cs.blocked:
+				anyBusy = true
+			case cs.parked != nil:
 				acts = append(acts, action{cs, false})
-			} else if cs.pending == 0 && cs.next < len(cs.segs) {
+			case cs.pending == 0 && cs.next < len(cs.segs):
 				acts = append(acts, action{cs, true})
+			case cs.pending > 0:
+				anyBusy = true
 			}
 		}
 		if len(acts) == 0 {
-			break
+			if !anyBusy {
+				break
+			}
+			// stragglers: wait for the next event
+			select {
+			case e := <-s.events:
+				handle(e)
+				continue
+			case <-time.After(waitBudget):
+				return trace, fanout, interesting, errBudget
+			}
 		}
 		fanout = append(fanout, len(acts))
 		pick := 0
@@ -383,8 +550,8 @@ func runSchedule(t ev.Failer, c *ev.Collector, sc schedCase) (trace []string, fa
 		}
 		choice++
 		a := acts[pick]
-		ci := indexOf(conns, a.cs)
-		running = a.cs
+		holder := lockHolder()
+		needsLock := false
 		if a.send {
 			seg := a.cs.segs[a.cs.next]
 			a.cs.next++
@@ -397,60 +564,52 @@ func runSchedule(t ev.Failer, c *ev.Collector, sc schedCase) (trace []string, fa
 				}
 			}
 			a.cs.pending = len(seg)
-			trace = append(trace, fmt.Sprintf("send c%d %s", ci, segNames(seg)))
+			trace = append(trace, fmt.Sprintf("send c%d %s", a.cs.idx, segNames(seg)))
 			if err := a.cs.conn.SendRaw(raw); err != nil {
 				return trace, fanout, interesting, err
 			}
+			needsLock = true
 		} else {
-			trace = append(trace, fmt.Sprintf("release c%d@%s", ci, a.cs.parked.name))
-			if a.cs.parked.name == "flushed" || a.cs.parked.name == "dirty-seen" {
-				// someone else appended while this connection sat between its flag test / flush and its reply
+			p := a.cs.parked
+			trace = append(trace, fmt.Sprintf("release c%d@%s", a.cs.idx, p.name))
+			if p.name == "dirty-seen" {
+				needsLock = true
+			}
+			if p.name == "flushed" || p.name == "dirty-seen" || p.name == "aof-write" {
 				for _, o := range conns {
 					if o != a.cs && o.parked != nil && o.parked.name == "pre-write" {
 						interesting = true
 					}
 				}
 			}
-			p := a.cs.parked
 			a.cs.parked = nil
 			close(p.release)
 		}
-		if err := waitSettle(); err != nil {
+		if holder != nil && holder != a.cs && needsLock {
+			// the server lock is held by a parked connection: this one cannot get anywhere
+			a.cs.blocked = true
+			trace = append(trace, fmt.Sprintf("c%d waits for the lock held by c%d", a.cs.idx, holder.idx))
+			continue
+		}
+		grace := time.Duration(0)
+		if holder != nil && holder != a.cs {
+			grace = 2 * time.Second
+		}
+		if err := waitFor(a.cs, grace); err != nil {
 			return trace, fanout, interesting, err
 		}
 	}
 	// after everything was acknowledged every marker must be on disk
-	for ci, cs := range conns {
+	for _, cs := range conns {
 		for _, seg := range cs.segs[:cs.next] {
 			for _, cmd := range seg {
-				if mk := cmdMarker(cmd); mk != "" && !fileHas(s.srv.AOFPath(), mk) {
-					c.Fail(t, "ack-before-flush", fmt.Sprintf("schedule %v: connection %d's acknowledged %s is not in appendonly.aof at the end of the schedule", trace, ci, t38.CmdString(cmd)), sc)
+				if mk := cmdMarker(cmd); mk != "" && !cs.closed && !fileHas(s.srv.AOFPath(), mk) {
+					c.Fail(t, "ack-before-flush", fmt.Sprintf("schedule %v: connection %d's acknowledged %s is not in appendonly.aof at the end of the schedule", trace, cs.idx, t38.CmdString(cmd)), sc)
 				}
 			}
 		}
 	}
 	return trace, fanout, interesting, nil
-}
-
-var theSched *sched
-
-// sharedSched returns the one scheduler/server of this process (every server
-// start leaks descriptors inside tile38, so schedules share a server; markers
-// are unique and connections are per schedule).
-func sharedSched(t ev.Failer) *sched {
-	if theSched == nil {
-		theSched = newSched(t)
-	}
-	return theSched
-}
-
-func indexOf(cs []*connState, c *connState) int {
-	for i, x := range cs {
-		if x == c {
-			return i
-		}
-	}
-	return -1
 }
 
 func cmdMarker(cmd []string) string {
@@ -478,7 +637,7 @@ func TestC08_Exhaustive(t *testing.T) {
 	}
 	c := ev.New("C08", "sched-exhaustive", "exploration")
 	t.Cleanup(c.Flush)
-	c.Rule("harness-owned scheduler over the verif hook points (pre-write, dirty-seen, flushed, before-conn-write) plus 'send segment' actions: ALL schedules of 2 connections x 1 write each are enumerated by depth-first search over the choice tree (stateless re-execution), for each of the configurations {plain, first connection's segment ends in SUBSCRIBE, 2 writes in one segment}; at every before-conn-write point and at the end the file must contain every acknowledged write. Non-trivial: a schedule in which one connection appends while another sits between its dirty-flag test/flush and its reply; distinct by trace.")
+	c.Rule("harness-owned scheduler over the verif hook points (pre-write, dirty-seen, aof-write [inside flushAOF, server lock held], flushed, before-conn-write) plus 'send segment' actions: ALL schedules of 2 connections x 1 write each are enumerated by depth-first search over the choice tree (stateless re-execution), for each of the configurations {plain, first connection's segment ends in SUBSCRIBE, 2 writes in one segment}; at every before-conn-write point and at the end the file must contain every acknowledged write. Non-trivial: a schedule in which one connection appends while another sits between its dirty-flag test/flush and its reply; distinct by trace.")
 	configs := []schedCase{
 		{Conns: [][][]int{{{0}}, {{0}}}, Detach: []int{-1, -1}},
 		{Conns: [][][]int{{{0}}, {{1}}}, Detach: []int{0, -1}},
@@ -586,7 +745,7 @@ func TestReplay(t *testing.T) {
 		if err := json.Unmarshal(doc.Data, &bc); err != nil {
 			t.Fatal(err)
 		}
-		srv, err := t38.Start(t38.Opts{})
+		srv, err := t38.Start(t38.Opts{DevMode: true})
 		if err != nil {
 			t.Fatal(err)
 		}
